@@ -21,7 +21,7 @@ NSHARDS = {"quick": 64, "thorough": 128}
 BUDGET_S = {"quick": 240, "thorough": 2400}
 MIN_HITS = {
     'quick': {"program": 146343, "exh": 145001, "cond": 230, "random": 960, "ref_ok": 125419, "ref_fail": 20874, "op_148": 4302, "op_153": 218, "op_128": 328, "op_113": 44, "op_100": 460},
-    'thorough': {"program": 539362, "exh": 78340, "cond": 222, "random": 460800, "ref_ok": 350901, "ref_fail": 188451, "op_148": 41827, "op_153": 28434, "op_128": 21555, "op_113": 22450, "op_100": 151784},
+    'thorough': {"program": 635442, "exh": 174001, "cond": 276, "random": 460800, "ref_ok": 432046, "ref_fail": 203287, "op_148": 44818, "op_153": 27109, "op_128": 20564, "op_113": 22517, "op_100": 152315},
 }
 
 V15 = [b"", b"\x00", b"\x80", b"\x01", b"\x81", b"\x7f", b"\xff", b"\x80\x00", b"\xff\x7f", b"\xff\xff", b"\x01\x00", b"\x00\x00\x00\x80\x00", bytes(range(1, 9)) + b"\x10", b"\x04\x03\x02\x81", bytes((i * 7 + 1) & 0xFF for i in range(80))]
@@ -179,6 +179,16 @@ def cases(ctx):
         toks = gen_random(r, r.choice([5, 8, 12, 20, 35, 60]))
         if toks:
             yield case_of(toks, "random")
+    # programs handed to a transaction input as flat element lists through the construction API
+    for _ in range(3000 if t else 40):
+        toks = gen_random(r, r.choice([5, 8, 12, 20]))
+        if toks:
+            c_ = case_of(toks, "random")
+            yield {"k": "apiprog", "hex": c_["hex"], "cut": r.randrange(0, 64), "tag": "api"}
+    if S % 8 == 3:
+        for ci, (tag_, toks) in enumerate(x_ for x_ in all_exhaustive() if x_[0] == "cond"):
+            if ci % 3 == (S // 8) % 3:
+                yield {"k": "apiprog", "hex": case_of(toks, tag_)["hex"], "cut": r.randrange(0, 64), "tag": "api"}
     # long programs (hundreds to thousands of executed opcodes)
     if S % 8 == 0:
         for n in (400, 501, 600, 1000, 2500):
@@ -265,6 +275,45 @@ def judge(ctx, case):
         want = [x.hex() for x in ref["trace"][-1][0]]
         if s["end"] != "none" or s["last_ok"]["stack"] != want:
             ctx.viol("opcode=OP_SIZE kind=wrong_result (element of %s bytes)" % ("2^23 or more" if case["len"] >= 1 << 23 else "less than 2^23"), {"len": case["len"], "lib": s["last_ok"], "end": s["end"], "detail": s["detail"], "ref": want})
+        return
+    if case.get("k") == "apiprog":
+        # the same program split into an unlocking and a locking part and handed to a transaction input as FLAT element lists through
+        # the construction API; what runs is the input's script (its serialisation), so conditionals take effect as usual
+        raw = bytes.fromhex(case["hex"])
+        toks = wire.tokenize(raw)
+        ctx.hit("api_built_transaction_program")
+        try:
+            ref = interp.run(toks)
+        except interp.OutOfScope:
+            return
+        if not ref["trace"]:
+            return
+        ctx.nontrivial()
+
+        def bit(t_):
+            if t_[0] == "op":
+                return {"op": t_[1]}
+            if t_[0] == "push":
+                return {"push": t_[1].hex()}
+            return {"pd": t_[1], "data": t_[2].hex()}
+
+        cut = case["cut"] % (len(toks) + 1)
+        dummy = wire.tx_encode({"version": 1, "ins": [{"txid_wire": b"\x33" * 32, "vout": 0, "script": b"", "seq": 0}], "outs": [], "locktime": 0}).hex()
+        r = ctx.call({"op": "interp", "tx": dummy, "idx": 0, "ext": [{"locking": "51", "satoshis": 1}], "api_bits": {"unlock": [bit(t_) for t_ in toks[:cut]], "lock": [bit(t_) for t_ in toks[cut:]]}, "max_steps": len(toks) + 2, "mode": "run"})
+        ctx.ev()
+        run = r.get("ok", {}).get("run") if isinstance(r.get("ok"), dict) else None
+        if run is None:
+            if "err" in r:
+                ctx.note("api-built program: interpreter construction refused")
+            else:
+                ctx.viol("interpreter could not be driven on an API-built transaction input", {"resp": str(r)[:300]})
+            return
+        want_ok = ref["ok"]
+        want = [x.hex() for x in ref["trace"][-1][0]]
+        if (run["end"] == "ok") != want_ok:
+            ctx.viol("API-built transaction input: outcome differs from the script semantics of its serialisation (%s expected)" % ("success" if want_ok else "failure"), {"hex": case["hex"][:200], "run": str(run)[:300]})
+        elif want_ok and run["post"]["stack"] != want:
+            ctx.viol("API-built transaction input: final stack differs from the script semantics of its serialisation", {"hex": case["hex"][:200], "lib": run["post"]["stack"][:8], "ref": want[:8]})
         return
     raw = bytes.fromhex(case["hex"])
     toks = wire.tokenize(raw)
